@@ -213,6 +213,36 @@ theorem all_pread_correct (file : Bytes) (reqs : List (Nat × Nat)) (sched : Lis
   · simp [List.getD_eq_getElem?_getD, hc]
   · exact hs
 
+theorem readExactResult_single {b : Bytes} (hb : b ≠ []) : readExactResult [some b] = some b := by
+  cases b with
+  | nil => exact absurd rfl hb
+  | cons x xs => simp [readExactResult]
+
+/-- **C13 (A')**: `read_range(off, n)` of the repaired `DataReaderFile` (program `progReadRange`,
+    including the `read_exact_at` loop) for a range inside the file returns exactly the `n` bytes
+    `file[off, off+n)` in every interleaving with any isolated programs of any other calls. -/
+theorem readRange_correct (file : Bytes) (progs : List (List Sys)) (h : ∀ p ∈ progs, isolated p = true)
+    (sched : List Nat) (c off n : Nat) (hn : 0 < n) (hin : off + n ≤ file.length)
+    (hp : progs.getD c [] = progReadRange file.length off n) (hc : c ∈ sched) :
+    readExactResult ((exec (init file progs) sched).loc c).out = some ((file.drop off).take n) ∧
+    ((file.drop off).take n).length = n := by
+  have hp' : progs.getD c [] = progPread off n := by
+    rw [hp, progReadRange, if_neg (by omega), if_pos hin]; rfl
+  have hlen : ((file.drop off).take n).length = n := by
+    simp only [List.length_take, List.length_drop]; omega
+  rw [pread_correct file progs h sched c off n hp' hc]
+  refine ⟨readExactResult_single ?_, hlen⟩
+  intro he; rw [he] at hlen; simp at hlen; omega
+
+/-- every program `read_range` can issue is isolated -/
+theorem progReadRange_isolated (len off n : Nat) : isolated (progReadRange len off n) = true := by
+  unfold progReadRange
+  split
+  · rfl
+  · split
+    · rfl
+    · split <;> rfl
+
 /-! ### (B) the code before the repair -/
 
 theorem dupSeekRead_not_isolated (off n : Nat) : isolated (progDupSeekRead off n) = false := rfl
@@ -287,6 +317,11 @@ theorem cache_sections_sequential (load : Nat → Nat) (cap : Nat) (hcap : 1 ≤
 /-! ### non-vacuity -/
 
 example : isolated (progPread 5 3) = true := rfl
+-- a range that ends behind the file: short `pread`, then end-of-file → `read_exact_at` fails
+example : progReadRange 5 3 4 = [.pread .shared 3 4, .pread .shared 5 2] := by decide
+example : readExactResult (sequentialOut [10, 11, 12, 13, 14] [progReadRange 5 3 4] 0) = none := by decide
+example : readExactResult (sequentialOut [10, 11, 12, 13, 14] [progReadRange 5 1 3] 0) = some [11, 12, 13] := by decide
+example : readExactResult (sequentialOut [10, 11, 12, 13, 14] [progReadRange 5 9 0] 0) = some [] := by decide
 example : isolated [.openNew, .lseek (.own 0) 7, .read (.own 0) 2, .close (.own 0)] = true := rfl
 example : sequentialOut [10, 11, 12, 13, 14] [progPread 1 3] 0 = [some [11, 12, 13]] := by decide
 example : sequentialOut [10, 11, 12, 13, 14] [progDupSeekRead 1 3] 0 = [some [11, 12, 13]] := by decide
